@@ -261,7 +261,7 @@ def renderElementTotal (x : Bytes) (desc : Bool) (db : Book) : Bytes :=
 def csvNeedsQuotes (f : Bytes) : Bool :=
   if f.isEmpty then false
   else if f == [92, 46] then true
-  else if f.any (fun c => c == 10 || c == 13 || c == 34 || c == 44) then true
+  else if f.any (fun c => c == 10 || c == 13 || c == 34 || c == Facts.csvSeparator) then true
   else (leadingSpaceWidth f).isSome
 
 def csvField (f : Bytes) : Bytes :=
@@ -270,17 +270,18 @@ def csvField (f : Bytes) : Bytes :=
   else f
 
 def csvRecord (fields : List Bytes) : Bytes :=
-  join 44 (fields.map csvField) ++ [10]
+  join Facts.csvSeparator (fields.map csvField) ++ [10]
 
-def isoLayout : Layout := [.year4, .lit 45, .month2, .lit 45, .day2]
+/-- `csv.DefaultOutputTimeFormat` (`Props/C13` checks that it is the ISO layout) -/
+def isoLayout : Layout := (Date.parseLayout Facts.csvTimeFormat).getD []
 
 /-- `csv log` -/
 def renderCsvLog (d : LogDay) : Bytes :=
-  (d.elements.map (fun e => csvRecord [Date.format isoLayout d.date, e.name, Num.fmtFixed 3 e.value])).flatten
+  (d.elements.map (fun e => csvRecord [Date.format isoLayout d.date, e.name, Num.fmtFixed Facts.csvLogPrecision e.value])).flatten
 
 /-- `csv database` / `csv database-resolved`: one record's rows -/
 def renderCsvDb (header : Bytes) (els : Elements) : Bytes :=
-  (els.map (fun e => csvRecord [header, e.name, Num.fmtFixed 2 e.value])).flatten
+  (els.map (fun e => csvRecord [header, e.name, Num.fmtFixed Facts.csvDbPrecision e.value])).flatten
 
 /-- sort a book by recipe name -/
 def sortBook (b : Book) : Book :=
@@ -307,7 +308,7 @@ def renderPrint (cfg : RCfg) (d : LogDay) : Bytes :=
   ++ (d.notes.map (fun m =>
         if !m.name.isEmpty then [32, 32, 35, 32] ++ m.name ++ [58, 32] ++ m.value ++ [10]
         else [32, 32, 35, 32] ++ m.value ++ [10])).flatten
-  ++ (d.elements.map (fun e => [32, 32, 45, 32] ++ e.name ++ [58, 32] ++ Num.fmtFixed 2 e.value ++ [10])).flatten
+  ++ (d.elements.map (fun e => [32, 32, 45, 32] ++ e.name ++ [58, 32] ++ Num.fmtFixed Facts.printPrecision e.value ++ [10])).flatten
   ++ [10]
 
 end Report
